@@ -94,6 +94,10 @@ fn judge_paired<F: Fl>(c: &Case, l: &mut Local) {
             ("Paired::extend_tuple+ci_mean", call(|| s_tup.ci_mean(cf)).map(|i| F::obs(&i))),
             ("Paired::append_pair+ci_mean", call(|| s_app.ci_mean(cf)).map(|i| F::obs(&i))),
             ("Paired::extend+append_pair+ci_mean", call(|| s_mix.ci_mean(cf)).map(|i| F::obs(&i))),
+            // the same pairs in columns with missing entries (iterators that announce more slots than values,
+            // and a different number of slots for the two columns) and behind views of unknown length
+            ("Paired::ci(columns with holes)", call(|| Paired::<F>::ci(cf, &crate::lazy::Sparse::of(&a, 2), &crate::lazy::Sparse::of(&b, 1))).map(|i| F::obs(&i))),
+            ("Paired::ci(views of unknown length)", call(|| Paired::<F>::ci(cf, &crate::lazy::Lazy(a.clone()), &crate::lazy::HeadKnown(b.clone(), n / 2))).map(|i| F::obs(&i))),
         ];
         for (name, got) in styles {
             l.eval();
@@ -134,6 +138,9 @@ fn judge_mismatch<F: Fl>(la: usize, lb: usize, l: &mut Local) {
         let _ = st.append_pair(F::of(1.0), F::of(0.5));
         let _ = st.extend_tuple(&vec![(F::of(2.0), F::of(1.0)), (F::of(3.0), F::of(2.5))]);
         e.push(("Paired::extend(on a non-empty state)", st.extend(&a, &b)));
+        // columns with holes: the lengths are those of the values, not of the slots
+        e.push(("Paired::ci(columns with holes)", Paired::<F>::ci(conf(Kind::Two, 0.9), &crate::lazy::Sparse::of(&a, 2), &crate::lazy::Sparse::of(&b, 3)).map(|_| ())));
+        e.push(("Paired::extend(columns with holes)", Paired::<F>::default().extend(&crate::lazy::Sparse::of(&a, 1), &crate::lazy::Sparse::of(&b, 0))));
         e
     };
     for (name, r) in entries {
@@ -253,6 +260,20 @@ fn judge_unpaired<F: Fl>(c: &Case, l: &mut Local) {
             s_app.append_b(*y).unwrap();
         }
     }
+    // extend on a state that already holds observations: appended heads, then two batches
+    let mut s_inc = Unpaired::<F>::default();
+    {
+        let (ha, hb) = (na / 3, nb / 2);
+        for x in &a[..ha] {
+            s_inc.append_a(*x).unwrap();
+        }
+        for y in &b[..hb] {
+            s_inc.append_b(*y).unwrap();
+        }
+        let (ma, mb) = (ha + (na - ha) / 2, hb + (nb - hb) / 2);
+        s_inc.extend(&a[ha..ma].to_vec(), &b[hb..mb].to_vec()).unwrap();
+        s_inc.extend(&crate::lazy::Lazy(a[ma..].to_vec()), &crate::lazy::Sparse::of(&b[mb..], 2)).unwrap();
+    }
     let s_new = Unpaired::<F>::new(Arithmetic::<F>::from_iter(&a).unwrap(), Arithmetic::<F>::from_iter(&b).unwrap());
     let mut s_mut = Unpaired::<F>::default();
     for x in a.iter() {
@@ -272,6 +293,7 @@ fn judge_unpaired<F: Fl>(c: &Case, l: &mut Local) {
             ("Unpaired::append_pair/append_a/append_b+ci_mean", call(|| s_app.ci_mean(cf)).map(|i| F::obs(&i))),
             ("Unpaired::new(Arithmetic,Arithmetic)+ci_mean", call(|| s_new.ci_mean(cf)).map(|i| F::obs(&i))),
             ("Unpaired::stats_a_mut/stats_b_mut+ci_mean", call(|| s_mut.ci_mean(cf)).map(|i| F::obs(&i))),
+            ("Unpaired::append_a/append_b,extend,extend(views)+ci_mean", call(|| s_inc.ci_mean(cf)).map(|i| F::obs(&i))),
         ];
         for (name, got) in styles.iter() {
             l.eval();
